@@ -1,5 +1,6 @@
 import Sourmash.Lemmas.DownsampleCmp
 import Sourmash.Lemmas.DownsampleClosed
+import Sourmash.Lemmas.DownsampleHybrid
 /-! Property C04 — downsampling commutes with sketching and with every comparison.
 
 Property theorems only (helper lemmas: `Lemmas/Downsample*.lean`, `Lemmas/SetOps*.lean`), about the
@@ -38,6 +39,48 @@ example : exS.Scaled ∧ exS.scaled ≠ 0 ∧ exS.scaled < 2000 ∧ maxHashForSc
 /-- … on the example: of 5, mh(2000), mh(2000)+1 the last one goes. -/
 example : ∃ r, downsampleScaled .vec exS 2000 = .ok r ∧ r.mins = [5, 9223372036854776] ∧ r.abunds = some [2, 1] := by
   refine ⟨_, downsample_exact .vec exS_scaled (by decide) (by decide) (by decide), ?_, ?_⟩ <;> decide
+
+/-! ### sketches that carry a `num` bound next to their ceiling
+
+`Signature::from_params` builds them whenever `ComputeParameters::num_hashes` keeps its default (500)
+next to a non-zero `scaled`, `KmerMinHash::new(scaled, .., num > 0)` gives them directly; `scaled()` is
+non-zero, so `select` and every comparison treat them as scaled sketches.  `Sk.ScaledRoom` is
+`Sk.Scaled` with `num = 0` weakened to "what the sketch holds does not exceed `num`". -/
+
+/-- `exS` with the default `num_hashes` of `ComputeParameters` next to its scaled value -/
+def exH : Sk := { exS with num := 500 }
+theorem exH_room : exH.ScaledRoom :=
+  ⟨⟨by decide, by intro ab h; cases h; rfl⟩, Or.inr (by decide), by decide, by decide,
+   by intro ab h; cases h; decide⟩
+
+/-- **T-ds_exact, num next to scaled**: downsampling such a sketch to a larger scaled value keeps
+exactly the hashes under the new ceiling with their abundances (and its `num`), for both container
+types — it is not passed through the way a num sketch is. -/
+theorem ds_exact_num_and_scaled (k : Kind) (x : Sk) (s' : Nat) (hx : x.ScaledRoom) (h0 : x.scaled ≠ 0)
+    (hlt : x.scaled < s') (hM : maxHashForScaled s' ≠ 0) :
+    downsampleScaled k x s' = .ok (belowSk (maxHashForScaled s') x) :=
+  downsample_exact_room k hx h0 hlt hM
+example : exH.ScaledRoom ∧ exH.scaled ≠ 0 ∧ exH.scaled < 2000 ∧ maxHashForScaled 2000 ≠ 0 :=
+  ⟨exH_room, by decide, by decide, by decide⟩
+example : ∃ r, downsampleScaled .tree exH 2000 = .ok r ∧ r.mins = [5, 9223372036854776] ∧
+    r.abunds = some [2, 1] ∧ r.num = 500 := by
+  refine ⟨_, downsample_exact_room .tree exH_room (by decide) (by decide) (by decide), ?_, ?_, ?_⟩ <;> decide
+/-- every scaled sketch is one of these -/
+theorem scaled_room (x : Sk) (hx : x.Scaled) : x.ScaledRoom := hx.room
+
+/-- **T-select_ds, num next to scaled**: `Signature::select` at a coarser scaled value `sel` delivers
+such a sketch cut at the ceiling of `sel` (not the sketch as it stands). -/
+theorem select_num_and_scaled (k : Kind) (x : Sk) (sel : Nat) (hsel : sel < 2 ^ 32) (hx : x.ScaledRoom)
+    (h0 : x.scaled ≠ 0) (hlt : x.scaled < sel) (hM : maxHashForScaled sel ≠ 0) :
+    selectScaled k [x] sel = .ok [belowSk (maxHashForScaled sel) x] := by
+  rw [selectScaled_eq k [x] sel hsel]
+  have hk : keepScaled x sel = true := by
+    simp only [keepScaled, decide_eq_true_eq]; omega
+  simp only [List.filter, hk, List.mapM_cons, List.mapM_nil, downsample_exact_room k hx h0 hlt hM]
+  rfl
+example : exH.ScaledRoom ∧ exH.scaled ≠ 0 ∧ exH.scaled < 2000 ∧ maxHashForScaled 2000 ≠ 0 ∧ (2000 : Nat) < 2 ^ 32 :=
+  ⟨exH_room, by decide, by decide, by decide, by decide⟩
+
 
 /-- **T-ds_refuse**: a target below the sketch's own scaled value is refused. -/
 theorem ds_refuse (k : Kind) (x : Sk) (s' : Nat) (hlt : s' < x.scaled) :
@@ -254,6 +297,19 @@ theorem ds_exact_closed (k : Kind) (x : Sk) (s' : Nat) (hx : x.Scaled) (h0 : x.s
   ds_exact k x s' hx h0 hlt (maxHash_ne_zero s' (by omega) h64)
 example : exS.Scaled ∧ exS.scaled ≠ 0 ∧ exS.scaled < 2000 ∧ 2000 < 2 ^ 64 :=
   ⟨exS_scaled, by decide, by decide, by decide⟩
+
+/-- **T-ds_exact / T-select_ds, num next to scaled**, closed: any `u64` target above the sketch's own
+non-zero scaled value; for `select` the request is a `u32`. -/
+theorem ds_exact_num_and_scaled_closed (k : Kind) (x : Sk) (s' : Nat) (hx : x.ScaledRoom)
+    (h0 : x.scaled ≠ 0) (hlt : x.scaled < s') (h64 : s' < 2 ^ 64) :
+    downsampleScaled k x s' = .ok (belowSk (maxHashForScaled s') x) :=
+  ds_exact_num_and_scaled k x s' hx h0 hlt (maxHash_ne_zero s' (by omega) h64)
+theorem select_num_and_scaled_closed (k : Kind) (x : Sk) (sel : Nat) (hsel : sel < 2 ^ 32)
+    (hx : x.ScaledRoom) (h0 : x.scaled ≠ 0) (hlt : x.scaled < sel) :
+    selectScaled k [x] sel = .ok [belowSk (maxHashForScaled sel) x] :=
+  select_num_and_scaled k x sel hsel hx h0 hlt (maxHash_ne_zero sel (by omega) (by omega))
+example : exH.ScaledRoom ∧ exH.scaled ≠ 0 ∧ exH.scaled < 2000 ∧ (2000 : Nat) < 2 ^ 32 :=
+  ⟨exH_room, by decide, by decide, by decide⟩
 
 /-- **T-ds_exact** (second half), closed: `e` is an empty sketch created at scaled `s`
 (`1 ≤ s ≤ 2³¹`, ceiling `max_hash_for_scaled s`); the sketch of any insertions made into it,
